@@ -60,6 +60,7 @@ def run(repo: Repo, ctx) -> None:
     from .c09 import root_schema_rule
     root_schema_rule(repo, ctx, 'C17.R7')
     _r8(repo, ctx)
+    _r9(repo, ctx)
 
 
 def _run_main(repo: Repo, ctx) -> None:
@@ -1228,3 +1229,39 @@ def _inline_all(e: ast.AST, defs) -> ast.AST:
                 return copy.deepcopy(defs[node.id])
             return node
     return T().visit(copy.deepcopy(e))
+
+
+
+def _r9(repo: Repo, ctx) -> None:
+    """C17.R9 a worker entry point that takes a state transfer stores it
+    before it can answer.  The pool records the transfer as done for every
+    successful reply (BaseWorker.call, R3), so a reply on a path that never
+    reached `__sync__` leaves the worker with the old state behind the
+    pool's back: every later request is compiled against it."""
+    ctx.floor('C17.R9', 4)
+    n = 0
+    for modname in (WORKER, MTW):
+        m = repo.modules.get(modname)
+        if m is None:
+            continue
+        for f in repo._funcs_of(m):
+            if f.parent is not None or f.name == '__sync__':
+                continue
+            g = CFG(f.node)
+            syncs = [x.id for x in g.nodes if any(
+                call_name(c) == '__sync__' for c in g.node_calls(x))]
+            if not syncs:
+                continue
+            n += 1
+            ctx.saw(f)
+            ok = g.always_before(g.exit, syncs)
+            ctx.ob('C17.R9', f'{modname.split(".")[-1]}.{f.name}:'
+                   f'sync-before-reply', ok,
+                   f'{f.name} can return a reply on a path that never '
+                   f'called __sync__: the pool records the state transfer '
+                   f'as applied (every successful reply acknowledges it) '
+                   f'while the worker still holds the previous state',
+                   f.loc, sample='every normal exit passes __sync__')
+    if n < 4:
+        raise AnalysisError(f'C17.R9: only {n} worker entry points that '
+                            f'call __sync__ were found')
